@@ -45,7 +45,8 @@ pub fn run(case: &Value, ctx: &Ctx) -> Outcome {
     let key = case.to_string();
     let id = hash(&key);
     let extra = id % 3 == 0;
-    let text = gen::vcf_text(&cols, &recs, extra);
+    // one call set in five: the header does not declare GT (what a reader does with the records may not depend on that)
+    let text = if id % 5 == 3 { gen::vcf_text_undeclared_gt(&cols, &recs, extra) } else { gen::vcf_text(&cols, &recs, extra) };
     let path = cli::scratch(ctx, &format!("create_{id:016x}.vcf"), text.as_bytes());
 
     out.tag(format!("outcome:{outcome}/{}", diag["kind"].as_str().unwrap_or("")));
